@@ -24,6 +24,10 @@ MC_MaxCalls == EnvInt("V_MAXCALLS", 2)
 MC_ValidateRoots == EnvBool("V_VALIDATE_ROOTS", TRUE)
 MC_RestoreRng == EnvBool("V_RESTORE_RNG", TRUE)
 MC_Emit == EnvBool("V_EMIT", FALSE)
+\* V_EMIT_ALL=1: the input history of EVERY planning-iteration transition is emitted, not only those of
+\* completed calls (TLC explores states: a history that reaches an already known model state would
+\* otherwise never be replayed, although an implementation may tell the two apart)
+EmitAll == EnvBool("V_EMIT_ALL", FALSE)
 
 MC_Worlds ==
   LET n == MC_T.n  w == EnvOr("V_WORLDS", "all") IN
@@ -54,6 +58,12 @@ MC_Problems ==
     THEN { << [start |-> 0, goal |-> {RegionHi}], [start |-> RegionHi, goal |-> {0}] >> }
   ELSE IF EnvOr("V_PROBLEMS", "many") = "one"
     THEN { << [start |-> 0, goal |-> {n - 1}], [start |-> n - 1, goal |-> {0}] >> }
+  \* problem definitions listing a SECOND start state (start2: the middle of the lattice - walled off in
+  \* one of the "few" worlds - resp. point 1).  The planner specifications plan from `start`, as the
+  \* pinned code does; the monitor accepts any listed start as root / first path state provided the
+  \* checker accepts it.
+  ELSE IF EnvOr("V_PROBLEMS", "many") = "twostarts"
+    THEN { << [start |-> 0, goal |-> {n - 1}, start2 |-> n \div 2], [start |-> n - 1, goal |-> {0}, start2 |-> 1] >> }
     ELSE { << [start |-> s, goal |-> g], [start |-> n - 1, goal |-> {0}] >> :
              s \in {0, 1}, g \in {{n - 1}, Interval(n - 2, n - 1), {n \div 2}, Interval(0, 1)} }
 =============================================================================
